@@ -371,3 +371,28 @@ func H_C01_floats() {
 	checkC01(leavesC01("x", op, lit), d, m, nil, nil)
 	vCover("reached")
 }
+
+// H_C01_unicode: string leaves and literals with multi-byte runes, among them
+// U+FFFD (which the parser must not mistake for a decoding error) and the
+// last code point.
+func H_C01_unicode() {
+	lit := []string{"caf�", "�", "é￼", "日本", "\U0010FFFF"}[vChoose(5)]
+	var s string
+	switch vChoose(3) {
+	case 0:
+		s = lit
+	case 1:
+		s = lit + "z"
+	default:
+		s = vString(1)
+	}
+	op := vChoose(8)
+	d := map[string]interface{}{"x": s, "y": int8(0)}
+	m := &rv{kind: rvMap, keys: []string{"x", "y"}, vals: []*rv{{kind: rvStr, s: s}, {kind: rvInt, i: 0}}}
+	q := `"` + lit + `"`
+	if vBool() {
+		q = "`" + lit + "`"
+	}
+	checkC01(exprFor(op, "x", q), d, m, nil, nil)
+	vCover("reached")
+}
